@@ -622,7 +622,7 @@ const char *v_fault_desc(void)
 	static char d[400];
 	extern int wm_owns(uintptr_t a);
 	snprintf(d, sizeof d, "fault at %s: %s of %s%s", v_sym(v_fault_rip), v_fault_write ? "write" : "read", wm_owns(v_fault_addr) ? v_sym(v_fault_addr) : "address",
-		 wm_owns(v_fault_addr) ? " [library-owned writable memory, read-only after warm-up]" : "");
+		 wm_owns(v_fault_addr) ? " [library-owned writable memory, read-only once implementations are selected]" : "");
 	if (!wm_owns(v_fault_addr))
 		snprintf(d + strlen(d), sizeof d - strlen(d), " %p", (void *)v_fault_addr);
 	return d;
